@@ -451,7 +451,7 @@ def e_ConstrainedCP(g):
 
 
 def _tucker_rank(g, shape):
-    return g.choice([[2] * len(shape), [min(s, 2 + (i % 2)) for i, s in enumerate(shape)], [1] * len(shape)])
+    return g.choice([[2] * len(shape), [min(s, 2 + (i % 2)) for i, s in enumerate(shape)], [1] * len(shape), [9] + [2] * (len(shape) - 1)])
 
 
 @entry("tucker", seeded=True)
@@ -742,7 +742,7 @@ def e_tt(g):
     import tensorly.decomposition as D
 
     shape = g.shapeN()
-    rank = g.choice([2, [1] + [2] * (len(shape) - 1) + [1], 1])
+    rank = g.choice([2, [1] + [2] * (len(shape) - 1) + [1], 1, [1] + [9] * (len(shape) - 1) + [1], tuple([1] + [2] * (len(shape) - 1) + [1])])
     kw = dict(input_tensor=g.low_rank(shape, 2), rank=rank)
     svd_opt(g, kw, 0.4, randomized=False)
     return dict(fn=D.tensor_train, kwargs=kw)
@@ -763,8 +763,8 @@ def e_tr(g):
     import tensorly.decomposition as D
 
     shape = g.shape3()
-    rank = g.choice([[2, 2, 2, 2], [1, 2, 2, 1], [2, 1, 2, 2]])
-    kw = dict(input_tensor=g.low_rank(shape, 2), rank=rank)
+    rank = g.choice([[2, 2, 2, 2], [1, 2, 2, 1], [2, 1, 2, 2], [2, 2, 9, 2], [1, 9, 2, 1], (1, 2, 2, 1)])
+    kw = dict(input_tensor=g.low_rank(shape, 2), rank=list(rank) if isinstance(rank, list) else rank)
     g.opt(kw, "mode", [1, 2], 0.4)
     svd_opt(g, kw, 0.4, randomized=False)
     return dict(fn=D.tensor_ring, kwargs=kw)
